@@ -1,0 +1,39 @@
+//go:build verif
+
+package httpspec
+
+// Contracts for govc (contract-based deductive verification, see /verif/DESIGN.md).
+// This file contains comments only and is compiled only with the build tag `verif`.
+
+// C14: composition of the spec-compliance stack. The members are identified by ghost variables recorded by the
+// (assumed) constructor contracts; the members themselves are verified in package header.
+//@ ghost var stHop martian.RequestResponseModifier
+//@ ghost var stFwd martian.RequestModifier
+//@ ghost var stFraming martian.RequestModifier
+//@ ghost var stVia *header.ViaModifier
+//@ extern func header.NewHopByHopModifier
+//@   modifies stHop
+//@   ensures stHop == result && result != nil
+//@ extern func header.NewForwardedModifier
+//@   modifies stFwd
+//@   ensures stFwd == result && result != nil
+//@ extern func header.NewBadFramingModifier
+//@   modifies stFraming
+//@   ensures stFraming == result && result != nil
+//@ extern func header.NewViaModifier
+//@   modifies stVia
+//@   ensures stVia == result && result != nil
+
+//@ func NewStack
+//@   serves C14
+//@   modifies stHop, stFwd, stFraming, stVia
+//@   noframe
+//@   ensures[request-side-has-five-members] outer != nil && inner != nil && len(outer.reqmods) == 5
+//@   ensures[request-side-0-framing] outer.reqmods[0] == stFraming
+//@   ensures[request-side-1-hop-by-hop] outer.reqmods[1] == stHop
+//@   ensures[request-side-2-forwarded] outer.reqmods[2] == stFwd
+//@   ensures[request-side-3-via] outer.reqmods[3] == iface(stVia)
+//@   ensures[request-side-4-user-group] outer.reqmods[4] == iface(inner)
+//@   ensures[framing-is-checked-before-hop-by-hop-removal-strips-transfer-encoding] exists i int, j int :: 0 <= i && i < j && j < len(outer.reqmods) && outer.reqmods[i] == stFraming && outer.reqmods[j] == stHop
+//@   ensures[response-side-order] len(outer.resmods) == 3 && outer.resmods[0] == iface(inner) && outer.resmods[1] == iface(stVia) && outer.resmods[2] == stHop
+//@   ensures[user-group-starts-empty-and-errors-stop-the-stack] len(inner.reqmods) == 0 && len(inner.resmods) == 0 && !outer.aggregateErrors
